@@ -23,6 +23,7 @@ type HarnessCfg struct {
 	Params    map[string]int    `json:"params"`
 	Redirect  map[string]string `json:"redirect"`
 	SkipGo    []string          `json:"skip_go"`
+	EagerGo   []string          `json:"eager_go"` // goroutines run to completion at their go statement, their channel sends never block
 	Covers    []string          `json:"covers"`
 	MapOrder  int               `json:"map_order"`
 	MapOrderFuncs []string      `json:"map_order_funcs"`
@@ -35,6 +36,19 @@ type HarnessCfg struct {
 
 func (c *HarnessCfg) skipGo(name string) bool {
 	for _, s := range c.SkipGo {
+		if s == "*" || strings.Contains(name, s) {
+			return true
+		}
+	}
+	return false
+}
+
+// eagerGo: producer goroutines that are sequentialised: the goroutine's body runs to completion at the go statement and
+// every channel it sends on is treated as unbounded while it runs. The sequence of values a deterministic producer sends
+// is the same under every schedule in which the consumer keeps receiving, provided the producer reads no state the
+// consumer writes (stated as an assumption by the harness that asks for it).
+func (c *HarnessCfg) eagerGo(name string) bool {
+	for _, s := range c.EagerGo {
 		if s == "*" || strings.Contains(name, s) {
 			return true
 		}
